@@ -5,9 +5,8 @@ CONSTANT Ops <- AllOps
 CONSTANT FullThird = TRUE
 CONSTANT CrossTag = TRUE
 INVARIANT TypeOK
-INVARIANT OrderIsTotal
-INVARIANT SpellingFree
 INVARIANT UnitsAgree
+INVARIANT OnePassIsDeclarative
 INVARIANT RefNeverRemoved
 INVARIANT AltRemovedIffFails
 INVARIANT MaskedIffRefFailsOrFlagged
